@@ -92,8 +92,11 @@ impl PropImpl for C08 {
          paragraph checked against a Vec model after every step; (E) all documents of 1-2 paragraphs of 1-2 fields over names {A,B} and 6 value shapes. Non-trivial: a multi-line or \
          empty-first-line value, or >= 2 model-changing steps touching a duplicated name. Distinct by hash of (paragraphs, history).".into()
     }
+    fn expected_labels(&self) -> Vec<&'static str> {
+        vec!["edit-on-duplicate-name", "empty-first-line", "empty-value", "has-history", "multi-line-value", "paragraphs>=2"]
+    }
     fn budget(&self, tier: Tier) -> Budget {
-        Budget { cases_per_lane: if tier == Tier::Quick { 20000 } else { 100_000 }, tape_max: 600, cpu_s: 10 }
+        Budget { cases_per_lane: if tier == Tier::Quick { 60000 } else { 240000 }, tape_max: 600, cpu_s: 10 }
     }
     fn spaces(&self, _tier: Tier) -> Vec<Space> {
         vec![Space { name: "documents of 1-2 paragraphs x 1-2 fields over {A,B} x 6 value shapes".into(), size: 156 + 156 * 156, exhaustive: true }]
